@@ -97,12 +97,31 @@ pub fn run(args: &Args) {
     // seeded long pairs and triples
     let chars: Vec<char> = "0019abzAZ..--__~~^^+é日".chars().collect();
     let pairs = args.num("pairs", 2000);
-    for _ in 0..pairs {
-        let a = long_string(&mut rng, &chars, None);
-        let b = match rng.below(8) {
-            0 | 1 => repad(&mut rng, &a),
-            2 => long_string(&mut rng, &chars, None),
-            _ => long_string(&mut rng, &chars, Some(&a)),
+    for pi in 0..pairs {
+        // every eighth pair: the same frame around two digit runs near / beyond the width of machine integers that
+        // are equal, differ in one digit or in length, under different zero padding
+        let (a, b) = if pi % 8 == 0 {
+            let m = *rng.pick(&[17usize, 18, 19, 20, 21, 22, 25, 38, 39, 40]);
+            let mut d: Vec<u8> = (0..m).map(|i| if i == 0 { b'1' + rng.below(9) as u8 } else { b'0' + rng.below(10) as u8 }).collect();
+            let da = String::from_utf8(d.clone()).unwrap();
+            match rng.below(4) {
+                0 => {}
+                1 => { let k = rng.below(m as u64) as usize; d[k] = if d[k] == b'5' { b'6' } else { b'5' }; }
+                2 => { d.push(b'0' + rng.below(10) as u8); }
+                _ => { d.pop(); }
+            }
+            let db = String::from_utf8(d).unwrap();
+            let pre = *rng.pick(&["", "1.", "a", "2.0~rc", "x-"]);
+            let suf = *rng.pick(&["", ".1", "a", "^git", "~"]);
+            (format!("{pre}{}{da}{suf}", "0".repeat(rng.below(12) as usize)), format!("{pre}{}{db}{suf}", "0".repeat(rng.below(12) as usize)))
+        } else {
+            let a = long_string(&mut rng, &chars, None);
+            let b = match rng.below(8) {
+                0 | 1 => repad(&mut rng, &a),
+                2 => long_string(&mut rng, &chars, None),
+                _ => long_string(&mut rng, &chars, Some(&a)),
+            };
+            (a, b)
         };
         let r = (|| -> Result<_, String> {
             Ok((vercmp(&a, &b)?, vercmp(&b, &a)?, vercmp(&a, &a)?, vercmp(&b, &b)?))
